@@ -40,6 +40,10 @@ func (s *e2eSys) restart() error {
 	if err != nil || st == nil {
 		return fmt.Errorf("no storage to restart on: %v", err)
 	}
+	// the old process is gone: none of its jobs may fire any more (Kill only asks the loop to stop)
+	s.cr.Lock()
+	s.cr.Timeline = s.cr.Timeline[:0]
+	s.cr.Unlock()
 	s.cr.Kill(ctx)
 	cr, err := cron.NewCron(nil, time.Second, "c15e2e", 1000000)
 	if err != nil {
